@@ -1,6 +1,7 @@
 import Mathlib.Algebra.BigOperators.Group.Finset.Basic
 import Sentinel.Lemmas.C08Bucket
 import Sentinel.Lemmas.C08Read
+import Sentinel.Model.BucketReads
 /-!
 # Per-second items (`SecondMetricsOnCondition`) against the per-bucket reference
 
@@ -330,5 +331,59 @@ theorem refItems_keys_nodup (L : Nat) (h : List (Nat × Bucket)) (starts : List 
   rw [List.map_map]
   simp only [Function.comp_def, List.map_id']
   exact nodup_eraseDups _
+
+/-! ## `BucketLeapArray.Values(now)`: the valid buckets after a refresh, one by one -/
+
+theorem aligned_le_cbs (L b now : Nat) (hL : 0 < L) (hal : L ∣ b) (hle : b ≤ now) : b ≤ cbs L now := by
+  by_contra hc
+  have := aligned_lt_step L _ _ (cbs_dvd L now) hal (Nat.lt_of_not_le hc)
+  have := lt_cbs_add L now hL
+  omega
+
+/-- after the refresh at `now`, the valid buckets are exactly the slots of the last `n` aligned buckets, each
+    holding the recordings of its own bucket; an aligned bucket of that window without a slot has no recordings -/
+theorem values_of_reach (a : Arr Bucket) (n L : Nat) (h : List (Nat × Bucket)) (latest now : Nat)
+    (r : Reach a n L h latest now) (hpos : 0 < now) :
+    ((valuesAt (refresh a now) now).map (·.start)).Nodup ∧
+    (∀ s ∈ valuesAt (refresh a now) now, L ∣ s.start ∧ cbs L now + L - n * L ≤ s.start ∧ s.start ≤ cbs L now ∧
+      s.val = refW L h s.start s.start) ∧
+    (∀ b, L ∣ b → cbs L now + L - n * L ≤ b → b ≤ cbs L now →
+      (∃ s ∈ valuesAt (refresh a now) now, s.start = b) ∨ refW L h b b = 0) := by
+  have r' := (total_of_reach a n L h latest now r hpos).1
+  set a' := refresh a now with ha'
+  obtain ⟨t0, inv⟩ := r'.inv
+  have hL := r'.L_pos
+  have hne : now ≠ 0 := Nat.ne_of_gt hpos
+  have hmem : ∀ s, s ∈ valuesAt a' now ↔ s ∈ a'.slots ∧ (!deprecated (n * L) now s.start) = true := by
+    intro s
+    unfold valuesAt
+    simp only [hne, if_false, List.mem_filter, r'.n_eq, r'.L_eq]
+  have hltL := lt_cbs_add L now hL
+  have hcle := cbs_le L now
+  refine ⟨?_, ?_, ?_⟩
+  · have hsub : (valuesAt a' now).Sublist a'.slots := by
+      unfold valuesAt; simp only [hne, if_false]; exact List.filter_sublist
+    exact (starts_nodup a' inv.wf).sublist (hsub.map _)
+  · intro s hs
+    obtain ⟨hsl, hdep⟩ := (hmem s).mp hs
+    have hy := slot_young_of_touched a' n L h now now r' (Or.inr rfl) s hsl hdep
+    obtain ⟨hb, _⟩ := (not_deprecated_iff _ _ _).mp hdep
+    have hal := slot_aligned a' inv.wf s hsl
+    rw [r'.L_eq] at hal
+    have hle := aligned_le_cbs L s.start now hL hal hb
+    have hstep := aligned_lt_step L _ _ (cbs_dvd L now) (Nat.dvd_add hal (Dvd.intro_left _ rfl)) hy
+    have hv := slot_val_eq_ref a' h t0 now inv s hsl (by rw [r'.L_eq, r'.n_eq]; exact hy)
+    rw [r'.L_eq] at hv
+    exact ⟨hal, by omega, hle, hv⟩
+  · intro b hal hlo hhi
+    by_cases hex : ∃ s ∈ a'.slots, s.start = b
+    · obtain ⟨s, hsl, rfl⟩ := hex
+      left
+      exact ⟨s, (hmem s).mpr ⟨hsl, (not_deprecated_iff _ _ _).mpr ⟨by omega, by omega⟩⟩, rfl⟩
+    · right
+      have hz := ref_zero_of_no_slot a' h t0 now inv b (fun s hs he => hex ⟨s, hs, he⟩)
+        (by rw [r'.L_eq, r'.n_eq]; omega)
+      rw [r'.L_eq] at hz
+      exact hz
 
 end Sentinel.C08
